@@ -14,7 +14,7 @@ from . import cpu
 INORDER = ["mvp1", "mvp2", "mvp3", "mvp4", "mvp5"]
 SUPER = ["mvp6-0", "mvp6-1", "mvp6-2", "mvp6-3", "mvp7-0", "mvp7-1", "mvp8-0"]
 RENAME = ["mvp6-3", "mvp7-0", "mvp7-1", "mvp8-0"]
-WINDOW = 16
+WINDOW = 8   # in-flight depth of register-only code (queue of 10, two-wide buses); with a load in flight the window is unbounded
 
 
 def load_findings():
@@ -24,10 +24,14 @@ def load_findings():
 # trigger predicates, by the `trigger_id` field of a finding (the predicate itself is code; the
 # finding's `trigger` text describes it). `f` = cpu.features(case, ref).
 TRIGGERS = {
-    "ooo-load": lambda v, f: v in SUPER and f["loads"] > 0,
-    "ooo-store": lambda v, f: (v in SUPER and v != "mvp6-0" and f["stores"] > 0) or (v == "mvp6-0" and f["stores"] > 0 and f["branches"]),
-    "ooo-spec-error": lambda v, f: v in SUPER and f["err_text"] and f["branches"],
-    "ooo-rename": lambda v, f: v in RENAME and min(f["waw"], f["war"]) <= WINDOW,
+    # D21: no memory-dependence tracking — a program that has both loads and stores
+    "ooo-mem": lambda v, f: v in SUPER and (f["loads"] > 0 or f["ld_text"]) and (f["stores"] > 0 or f["st_text"]),
+    # README (fixed in MVP-6.2): on 6.0/6.1 the shadow of a slow (load-fed) conditional branch commits
+    "ooo-shadow": lambda v, f: v in ("mvp6-0", "mvp6-1") and f["ld_text"] and f["branches"],
+    # D26: a wrong-path instruction that raises a defined error fails the run (6.0; the renaming variants too)
+    "ooo-spec-error": lambda v, f: v in ("mvp6-0", "mvp6-3", "mvp7-0", "mvp7-1", "mvp8-0") and f["err_text"] and f["branches"],
+    # D19/D20/D30: renaming admits a second in-flight writer
+    "ooo-rename": lambda v, f: v in RENAME and min(f["waw"], f["war"]) <= (WINDOW if f["loads"] == 0 else 10 ** 9),
 }
 
 
